@@ -95,6 +95,14 @@ CG_EPS = {"solve", "solve_left", "inv_quad", "root_decomposition"}  # max_choles
 NEEDS_RHS = {"matmul", "op_add", "op_mul", "solve", "solve_left", "inv_quad", "inv_quad_logdet", "sqrt_inv_matmul", "sqrt_inv_matmul_lhs"}
 NEEDS_LHS = {"rmatmul", "solve_left", "sqrt_inv_matmul_lhs"}
 
+# classes with hand-written derivative code (DESIGN C07 "G"): sampled as heads with a quota, and as a closed nesting alphabet
+CUSTOM_HEADS = ["Toeplitz", "Interpolated", "Diag", "ConstantDiag", "Dense", "ConstantMul", "Matmul", "Mul", "Sum", "PsdSum", "AddedDiag",
+                "BlockDiag", "BlockInterleaved", "SumBatch", "BatchRepeat", "Masked", "Kronecker", "KroneckerDiag", "Kernel", "KeOps",
+                "KroneckerAddedDiag", "LowRankRootAddedDiag"]
+KRON_HEADS = ("Kronecker", "KroneckerDiag", "KroneckerAddedDiag", "KroneckerTri", "SumKronecker")
+FOCUS = ["Dense", "Diag", "ConstantDiag", "Toeplitz", "Interpolated", "ConstantMul", "Matmul", "Mul", "Sum", "AddedDiag", "BlockDiag",
+         "BlockInterleaved", "SumBatch", "BatchRepeat", "Masked", "Kronecker", "Kernel"]
+
 NONBATCH = {
     ("Dense", "t"): 2, ("Minimal", "t"): 2, ("Tri", "t"): 2, ("Diag", "d"): 1, ("ConstantDiag", "c"): 1, ("Toeplitz", "c"): 1,
     ("ConstantMul", "c"): 0, ("Interpolated", "lv"): 2, ("Interpolated", "rv"): 2, ("Kernel", "x1"): 2, ("Kernel", "x2"): 2,
@@ -269,8 +277,32 @@ def cases(draw, tier):
     square = pdonly or ep in SQUARE_EPS
     dom = "pd" if pdonly else draw(st.sampled_from(["any", "any", "psd", "pd"]))
     names = sorted(nm for nm in gen.PREDS if nm not in ex)
-    head = draw(st.sampled_from(names)) if draw(st.integers(0, 3)) else None
-    r = draw(gen.recipes(dom, max_depth=3, max_dim=5, dts=("f64",), exclude=ex, square=square or None, head=head, batches=gen.BATCHES[:-1]))
+    custom = [nm for nm in CUSTOM_HEADS if nm not in ex]
+    mode = draw(st.integers(0, 3))
+    classes = None
+    if mode == 0:
+        head = draw(st.sampled_from(names)) if draw(st.booleans()) else None
+    elif mode in (1, 2):
+        head = draw(st.sampled_from(custom))
+    else:
+        # nestings among the classes with hand-written derivative code only
+        head = draw(st.sampled_from(custom))
+        classes = [nm for nm in FOCUS if nm not in ex]
+    # (the body of gen.recipes, with sizes chosen so that the requested head class is applicable: Kronecker forms need n = 4)
+    cfg = gen.Cfg(dt="f64", max_dim=5, exclude=ex, classes=classes)
+    batch = draw(st.sampled_from(gen.BATCHES[:-1]))
+    n = draw(st.integers(1, 5))
+    if head in KRON_HEADS and draw(st.integers(0, 3)):
+        n = 4
+    if dom == "any" and not square:
+        m = n if draw(st.integers(0, 2)) else draw(st.integers(1, 5))
+    else:
+        m = n
+    depth = draw(st.sampled_from([1, 2, 2, 3, 3]))
+    if head is not None and head in gen._applicable(cfg, dom, m, n, batch, max(depth, 2)):
+        r = gen.call_maker(head, draw, cfg, dom, m, n, batch, max(depth, 2))
+    else:
+        r = gen.gen(draw, cfg, dom, m, n, batch, depth)
     shp = refmodel.shape(r)
     *batch, m, n = shp
     batch = tuple(batch)
